@@ -3,7 +3,7 @@ import json
 from .. import common, gen, oracle, modelio, pipefam, pool
 
 RULE = ("TE annotations from harness/vh/gen.py (chains whose last link is nested, identical starts, duplicates, 1-bp TEs, abutment, "
-        "shuffled rows, groups whose highest row label is their left-most element); every fourth table is revised in an output directory "
+        "shuffled rows, groups whose highest row label is their left-most element, elements of different orders overlapping while no order overlaps itself, one group of 700 elements with ~100 fragments nested in single long ones); every fourth table is revised in an output directory "
         "already used for another annotation pair (other file names; the same genome id, one that extends it, or another); observed at Revised_<file>.tsv and at the "
         "per-chromosome *_TEData.tsv; non-trivial = some same-group overlap; distinct = canonical JSON of the TE table")
 
@@ -104,6 +104,7 @@ def run(chk):
     cases = pipefam.load_corpus("C02")
     for i in range(n):
         cases.append(gen.gen_pair(r, max_chrom=2, max_genes=2, max_tes=40))
+    cases += [gen.gen_large_group(r, sz) for sz in ([700] if chk.tier == "quick" else [300, 700, 1500, 2600])]
     # every fourth case is revised in an output directory that an earlier annotation pair (other file names; the same genome id, one that extends it, or another)
     # has been through: the revision must be that of the input given, whatever intermediates the directory holds
     befores = [cases[i - 1] if (i % 4 == 3 and i > 0) else None for i in range(len(cases))]
